@@ -89,9 +89,9 @@ def task_source(kind):
         'json': "return {} if _S.get('empty') else {'v': [1, 2, 3], 's': 'x' * 50, 'run': _S['run']}",
         'numpy': "return np.arange(0 if _S.get('empty') else 40, dtype='int64') + _S['run']",
         'pandas': "return pd.DataFrame({'a': list(range(20)), 'r': [_S['run']] * 20})",
-        'generated': "return ({'i': i, 'run': _S['run']} for i in range(0 if _S.get('empty') else 6))",
+        'generated': "return ({'i': i, 'run': _S['run']} for i in range(0 if _S.get('empty') else 230 if _S.get('big') else 6))",
         'generated_lazy': "d = self.get_data_object(); d.set_value([{'i': i, 'run': _S['run']} for i in range(0 if _S.get('empty') else 6)]); return d",
-        'listnumpy': "return [np.arange(5) + i + _S['run'] for i in range(0 if _S.get('empty') else 3)]",
+        'listnumpy': "return [np.arange(5) + i + _S['run'] for i in range(0 if _S.get('empty') else 12 if _S.get('big') else 3)]",
         'dir': "d = self.get_data_object()\n        (d.dir / 'a.txt').write_text('A' * 30 + str(_S['run']))\n        if _S['fault'] == 'raise_midway':\n            raise RuntimeError('boom midway')\n        (d.dir / 'sub').mkdir()\n        (d.dir / 'sub' / 'b.txt').write_text('B' * 30)\n        return d",
         'continues': "d = self.get_data_object()\n        (d.dir / 'part1').write_text('P1-' + str(_S['run']))\n        if _S['fault'] == 'raise_midway':\n            raise RuntimeError('boom midway')\n        (d.dir / 'part2').write_text('P2')\n        d.finished()\n        return d",
     }[kind]
